@@ -47,11 +47,13 @@ LEAN_TY = {"Int": "Int", "Bool": "Bool", "OptInt": "Option Int", "IntList": "Lis
            "IntSet": "List Int", "PairList": "List (Int × Int)", "OptPairList": "Option (List (Int × Int))",
            "ListList": "List (List Int)", "Slots": "List (Option Int)", "Time": "RRule.HMS", "TimeList": "List RRule.HMS",
            "Date": "(Int × Int × Int)", "Pair": "(Int × Int)", "OptPair": "Option (Int × Int)", "II": "RrPy.II",
-           "Rule": "RRule.Rule", "Unit": "Unit"}
+           "Rule": "RRule.Rule", "Unit": "Unit", "DT": "DT", "OptDT": "Option DT", "PairSet": "List (Int × Int)",
+           "OptTimeList": "Option (List RRule.HMS)"}
 DEFAULT = {"Int": "0", "Bool": "false", "OptInt": "none", "IntList": "[]", "OptIntList": "none", "IntSet": "[]",
            "PairList": "[]", "OptPairList": "none", "ListList": "[]", "Slots": "[]", "TimeList": "[]", "Pair": "(0, 0)"}
-ELEM = {"IntList": "Int", "IntSet": "Int", "PairList": "Pair", "ListList": "IntList", "TimeList": "Time", "Slots": "OptInt"}
-OPT_OF = {"OptIntList": "IntList", "OptPairList": "PairList", "OptInt": "Int", "OptPair": "Pair"}
+ELEM = {"IntList": "Int", "IntSet": "Int", "PairList": "Pair", "PairSet": "Pair", "ListList": "IntList", "TimeList": "Time", "Slots": "OptInt"}
+OPT_OF = {"OptIntList": "IntList", "OptPairList": "PairList", "OptInt": "Int", "OptPair": "Pair", "OptTimeList": "TimeList", "OptDT": "DT"}
+DT_ATTRS = {"month": "m", "day": "d", "hour": "hh", "minute": "mm", "second": "ss", "year": "y"}
 
 RULE_ATTRS = {"_interval": ("interval", "Int"), "_wkst": ("wkst", "Int"), "_freq": ("freq", "Int"),
               "_byweekno": ("byweekno", "OptIntList"), "_bymonth": ("bymonth", "OptIntList"),
@@ -65,7 +67,7 @@ II_ATTRS = {"lastyear": "OptInt", "lastmonth": "OptInt", "yearlen": "Int", "next
 TABLES = {"M366MASK", "M365MASK", "MDAY366MASK", "MDAY365MASK", "NMDAY366MASK", "NMDAY365MASK", "WDAYMASK",
           "M366RANGE", "M365RANGE"}
 LEAN_KEYWORDS = {"end", "at", "from", "fun", "do", "then", "have", "show", "by", "open", "local", "instance", "where",
-                 "match", "with", "in", "let", "if", "else", "def", "theorem", "namespace", "section", "variable", "set"}
+                 "match", "with", "in", "let", "if", "else", "def", "theorem", "namespace", "section", "variable", "set", "until"}
 
 
 def lean_ty(t):
@@ -89,6 +91,48 @@ class RFn:
         self.qualname, self.leanname, self.kind, self.params, self.ret = qualname, leanname, kind, params, ret
         self.locals = locals_ or {}
         self.split = split          # top-level `if` statements become definitions of their own
+
+
+class RSec(RFn):
+    """one top-level statement of `rrule.__init__` (the `if` that first tests / assigns `anchor`), as a function of the
+    variables it reads (`params`) returning the variables in `outs`; `self._x` is the local `self__x`"""
+    def __init__(self, qualname, leanname, anchor, params, outs, locals_=None):
+        ret = "Unit" if not outs else (outs[0][1] if len(outs) == 1 else tuple(t for _, t in outs))
+        RFn.__init__(self, qualname, leanname, "sec", params, ret, dict(locals_ or {}, **{n: t for n, t in outs}))
+        self.anchor, self.outs = anchor, outs
+
+
+def _is_orig(t):
+    """`self._original_rule` or an item of it"""
+    if isinstance(t, ast.Subscript): t = t.value
+    return isinstance(t, ast.Attribute) and is_self(t.value) and t.attr == "_original_rule"
+
+
+def clean_init(stmts):
+    """`rrule.__init__` without what the sections do not model: the `_original_rule` bookkeeping (hand model `origArgs`),
+    `warn(...)`, `global`, imports, `super().__init__`, and the `orig_*` locals that only feed the bookkeeping"""
+    out = []
+    for st in stmts:
+        if isinstance(st, (ast.Global, ast.Import, ast.ImportFrom)): continue
+        if isinstance(st, ast.Expr) and isinstance(st.value, ast.Call):
+            f = st.value.func
+            if isinstance(f, ast.Name) and f.id == "warn": continue
+            if isinstance(f, ast.Attribute) and isinstance(f.value, ast.Call) and isinstance(f.value.func, ast.Name) and f.value.func.id == "super": continue
+        if isinstance(st, ast.Assign) and len(st.targets) == 1:
+            t = st.targets[0]
+            if _is_orig(t): continue
+            if isinstance(t, ast.Name) and t.id.startswith("orig_"): continue
+        if isinstance(st, ast.If) and "tzinfo is not None" in ast.unparse(st.test) + "".join(ast.unparse(x) for x in st.body):
+            continue        # UNTIL / DTSTART awareness check: `Args` carries ONE zone tag for both (not modelled)
+        if isinstance(st, ast.If):
+            body, orelse = clean_init(st.body), clean_init(st.orelse)
+            if not body and not orelse: continue
+            if not body:
+                st = ast.If(test=ast.UnaryOp(op=ast.Not(), operand=st.test), body=orelse, orelse=[])
+            else:
+                st = ast.If(test=st.test, body=body, orelse=orelse)
+        out.append(st)
+    return out
 
 
 def module_consts(tree):
@@ -124,6 +168,7 @@ class RTr:
         self.loop = None          # dict(cont=fn()->lines, brk=fn()->lines, has_ret=bool, depth=int)
         self.rr_alias = set()     # local names bound to self.rrule
         self.written = []         # self slots assigned anywhere in the function
+        self.nonnull = set()      # optional-typed variables known not to be None here (else-branch of `x is None`, or just assigned a value)
         for n, t in spec.params:
             self.types[n] = t
         if spec.kind == "info":
@@ -143,7 +188,9 @@ class RTr:
         return False
 
     def slot(self, e):
-        """`self.<slot>` of an _iterinfo method -> local name, or None"""
+        """`self.<slot>` of an _iterinfo method (or `self._x` in a section of `__init__`) -> local name, or None"""
+        if self.spec.kind == "sec" and isinstance(e, ast.Attribute) and is_self(e.value):
+            return "self_" + e.attr
         if self.spec.kind == "info" and isinstance(e, ast.Attribute) and is_self(e.value) and e.attr != "rrule":
             if e.attr not in II_ATTRS: raise Untranslatable("self.%s is not a slot of _iterinfo" % e.attr)
             return "self_" + e.attr
@@ -161,7 +208,7 @@ class RTr:
         for n in ast.walk(node):
             if isinstance(n, ast.Name) and n.id != "self" and isinstance(n.ctx, ast.Load):
                 out.add(n.id)
-            elif isinstance(n, ast.Attribute) and is_self(n.value) and self.spec.kind == "info" and n.attr != "rrule" \
+            elif isinstance(n, ast.Attribute) and is_self(n.value) and self.spec.kind in ("info", "sec") and n.attr != "rrule" \
                     and isinstance(n.ctx, ast.Load):
                 out.add("self_" + n.attr)
         return out
@@ -256,7 +303,16 @@ class RTr:
         if want in OPT_OF and ty == "None": return "none"
         if want == "Int" and ty == "Bool": return "(RrPy.b2i %s)" % t
         if {ty, want} == {"IntList", "IntSet"}: return t
+        if {ty, want} == {"PairList", "PairSet"}: return t
+        if want == "OptIntList" and ty == "IntSet": return "(some %s)" % t
+        if want == "OptPairList" and ty == "PairSet": return "(some %s)" % t
+        if want == "OptIntList" and ty == "Int": return "(some [%s])" % t           # a scalar BY argument is the 1-tuple (Args convention)
+        if want == "OptPairList" and ty == "Int": return "(some [(%s, 0)])" % t     # an int weekday is the weekday object without n
         if ty == "EmptyList" and want in ELEM: return "[]"
+        if ty == "EmptyList" and want in OPT_OF and OPT_OF[want] in ELEM: return "(some [])"
+        if want == "OptTimeList" and ty == "TimeList": return "(some %s)" % t
+        if want == "Pair" and ty == ("Int", "Int"): return t
+        if want == "Int" and ty == "OptInt": raise Untranslatable("optional int used as an int outside a branch that knows it is not None")
         if want == "OptIntList" and ty == "EmptyList": return "(some [])"
         raise Untranslatable("value of type %s where %s is expected" % (ty, want))
 
@@ -277,6 +333,16 @@ class RTr:
             if v is None: return [], "none", "None"
             if isinstance(v, int): return [], (str(v) if v >= 0 else "(%d)" % v), "Int"
             raise Untranslatable("constant %r" % (v,))
+        if isinstance(e, (ast.Name, ast.Attribute)) and not (isinstance(e, ast.Name) and e.id not in self.types):
+            n0 = e.id if isinstance(e, ast.Name) else self.slot(e)
+            if n0 and n0 in self.nonnull and self.types.get(n0) in OPT_OF:
+                return [], "(RrPy.the %s)" % nm(n0), OPT_OF[self.types[n0]]
+        if isinstance(e, ast.Set) and e.elts:
+            binds, parts = [], []
+            for el in e.elts:
+                b, t = self.int_expr(el)
+                binds += b; parts.append(t)
+            return binds, "[" + ", ".join(parts) + "]", "IntSet"       # distinct members are the caller's business: only 1-sets occur
         if isinstance(e, ast.Name):
             if e.id in self.types: return [], nm(e.id), self.types[e.id]
             if e.id in self.consts:
@@ -290,6 +356,10 @@ class RTr:
             if self.is_rule(e.value):
                 f, ty = self.rule_attr(e.attr)
                 return [], "rr.%s" % f, ty
+            bv, tv, tyv = self.expr(e.value)
+            if tyv == "DT" and e.attr in DT_ATTRS: return bv, "%s.%s" % (tv, DT_ATTRS[e.attr]), "Int"
+            if tyv == "DT" and e.attr == "tzinfo" and "tz" in self.types: return bv, "tz", "Int"     # the zone tag of `Args`
+            if tyv == "Pair" and e.attr in ("weekday", "n"): return bv, "%s.%s" % (tv, "1" if e.attr == "weekday" else "2"), "Int"
             raise Untranslatable("attribute .%s" % e.attr)
         if isinstance(e, ast.UnaryOp):
             if isinstance(e.op, ast.USub):
@@ -321,6 +391,8 @@ class RTr:
             return b, "(decide %s)" % c, "Bool"
         if isinstance(e, ast.Subscript):
             return self.subscript(e)
+        if isinstance(e, ast.Tuple) and not e.elts:
+            return [], "[]", "EmptyList"
         if isinstance(e, ast.Tuple):
             binds, parts, tys = [], [], []
             for el in e.elts:
@@ -328,6 +400,7 @@ class RTr:
                 binds += b; parts.append(t); tys.append(ty)
             if len(parts) == 1:
                 if want in ELEM and tys[0] == ELEM[want]: return binds, "[%s]" % parts[0], want
+                if want in ("OptIntList", None) and tys[0] == "Int": return binds, "[%s]" % parts[0], "IntList"
                 raise Untranslatable("1-tuple of %s" % tys[0])
             if want == "IntList" and all(t == "Int" for t in tys): return binds, "[" + ", ".join(parts) + "]", "IntList"
             return binds, "(" + ", ".join(parts) + ")", tuple(tys)
@@ -395,16 +468,57 @@ class RTr:
                 if ty not in ELEM: raise Untranslatable("len of %s" % (ty,))
                 return b, "(%s.length : Int)" % t, "Int"
             if fn == "set" and not e.args:
-                return [], "[]", "IntSet"
+                return [], "[]", "PairSet" if want in ("PairSet", "OptPairList") else "IntSet"
+            if fn == "tuple" and len(e.args) == 1 and not e.keywords:
+                b, t, ty = self.expr(e.args[0])
+                if ty in ("IntList", "IntSet"): return b, t, "IntList"
+                if ty in ("PairList", "PairSet"): return b, t, "PairList"
+                if ty == "TimeList": return b, t, ty
+                raise Untranslatable("tuple(<%s>)" % (ty,))
+            if fn == "set" and len(e.args) == 1 and not e.keywords:
+                b, t, ty = self.expr(e.args[0])
+                if ty in ("IntList", "IntSet"): return b, "(RRule.dedup [] %s)" % t, "IntSet"
+                raise Untranslatable("set(<%s>)" % (ty,))
+            if fn == "sorted" and len(e.args) == 1 and not e.keywords:
+                a0 = e.args[0]
+                if isinstance(a0, ast.GeneratorExp):
+                    g = a0.generators
+                    if not (len(g) == 1 and isinstance(g[0].target, ast.Name) and len(g[0].ifs) == 1 and isinstance(a0.elt, ast.Name)
+                            and a0.elt.id == g[0].target.id and not g[0].is_async):
+                        raise Untranslatable("generator expression")
+                    b, t, ty = self.expr(g[0].iter)
+                    if ty not in ("IntList", "IntSet"): raise Untranslatable("generator over %s" % (ty,))
+                    saved = self.types.get(g[0].target.id)
+                    self.types[g[0].target.id] = "Int"
+                    bc, c = self.cond(g[0].ifs[0])
+                    if saved is None: del self.types[g[0].target.id]
+                    else: self.types[g[0].target.id] = saved
+                    if bc: raise Untranslatable("generator condition that can raise")
+                    return b, "(RRule.sortBy RRule.ltInt (%s.filter (fun %s => decide %s)))" % (t, nm(g[0].target.id), c), "IntList"
+                b, t, ty = self.expr(a0)
+                if ty in ("IntList", "IntSet"): return b, "(RRule.sortBy RRule.ltInt %s)" % t, "IntList"
+                if ty in ("PairList", "PairSet"): return b, "(RRule.sortBy RRule.ltPair %s)" % t, "PairList"
+                raise Untranslatable("sorted(<%s>)" % (ty,))
+            if fn == "isinstance" and len(e.args) == 2 and isinstance(e.args[1], ast.Attribute) and ast.unparse(e.args[1]) == "datetime.datetime":
+                b, t, ty = self.expr(e.args[0])
+                if ty in ("DT", "OptDT") and not b: return [], "true", "StaticTrue"      # `Args`: dtstart / until are datetimes
+                raise Untranslatable("isinstance(<%s>, datetime.datetime)" % (ty,))
+            if fn == "hasattr" and len(e.args) == 2:
+                b, t, ty = self.expr(e.args[0])
+                if ty in ELEM and not b: return [], "false", "StaticFalse"      # a list has no attribute
+                raise Untranslatable("hasattr")
             if fn == "list" and len(e.args) == 1 and self.is_range(e.args[0]):
                 return self.range_list(e.args[0])
             if fn == "isinstance" and len(e.args) == 2 and isinstance(e.args[1], ast.Name) and e.args[1].id == "integer_types":
                 b, t, ty = self.expr(e.args[0])
-                if ty in ELEM and not b: return [], "false", "StaticFalse"
+                if (ty in ELEM or ty in ("OptIntList", "OptPairList", "Pair")) and not b: return [], "false", "StaticFalse"
+                if ty in ("Int", "OptInt") and not b: return [], "true", "StaticTrue"
                 raise Untranslatable("isinstance(<%s>, integer_types)" % (ty,))
             raise Untranslatable("call %s" % fn)
         if isinstance(f, ast.Attribute):
             tgt = f.value
+            if isinstance(tgt, ast.Name) and tgt.id == "calendar" and f.attr == "firstweekday" and not e.args and "fwd" in self.types:
+                return [], "fwd", "Int"          # the process-wide first weekday is an explicit input (`constructW k`)
             if isinstance(tgt, ast.Name) and tgt.id == "calendar" and f.attr == "isleap" and len(e.args) == 1:
                 b, y = self.int_expr(e.args[0])
                 return b, "(Cal.isLeap %s)" % y, "Bool"
@@ -428,6 +542,24 @@ class RTr:
                 b, y = self.int_expr(e.args[0])
                 n = self.fresh()
                 return b + [(n, "RrPy.easterDate %s" % y)], n, "Date"
+            if is_self(tgt) and f.attr.endswith("__construct_byset") and self.spec.kind == "sec" and not e.args:
+                kw = {k.arg: k.value for k in e.keywords}
+                if set(kw) != {"start", "byxxx", "base"}: raise Untranslatable("keywords of __construct_byset")
+                b1, st_ = self.int_expr(kw["start"])
+                b2, bx, bty = self.expr(kw["byxxx"])
+                b3, ba = self.int_expr(kw["base"])
+                if bty not in ("IntList", "IntSet"): raise Untranslatable("byxxx of type %s" % (bty,))
+                if "self__interval" not in self.types: raise Untranslatable("self._interval not assigned before __construct_byset")
+                n = self.fresh()
+                # the method reads only `_interval` of the object under construction
+                return b1 + b2 + b3 + [(n, "constructByset { (default : RRule.Rule) with interval := self__interval } %s %s %s" % (st_, bx, ba))], n, "IntSet"
+            if f.attr == "weekday" and not e.args:
+                b, t, ty = self.expr(tgt)
+                if ty == "DT": return b, "%s.weekday" % t, "Int"
+            if f.attr == "replace" and not e.args and len(e.keywords) == 1 and e.keywords[0].arg == "microsecond" \
+                    and isinstance(e.keywords[0].value, ast.Constant) and e.keywords[0].value.value == 0:
+                b, t, ty = self.expr(tgt)
+                if ty == "DT": return b, "{ %s with us := 0 }" % t, "DT"
             if f.attr in ("toordinal", "weekday") and not e.args:
                 b, t, ty = self.expr(tgt)
                 if ty != "Date": raise Untranslatable(".%s() on %s" % (f.attr, ty))
@@ -450,6 +582,10 @@ class RTr:
         if isinstance(e, ast.BoolOp):
             op = " ∧ " if isinstance(e.op, ast.And) else " ∨ "
             conds = [self.cond(v) for v in e.values]
+            absorbing, neutral = ("False", "True") if isinstance(e.op, ast.And) else ("True", "False")
+            if any(c == absorbing and not b for b, c in conds): return [], absorbing
+            conds = [(b, c) for b, c in conds if c != neutral] or [([], neutral)]
+            if len(conds) == 1: return conds[0]
             if any(b for b, _ in conds[1:]):
                 # short-circuit around an operand that can raise:  a or b  ↦  if a then true else (do binds_b; b)
                 is_or = isinstance(e.op, ast.Or)
@@ -468,6 +604,7 @@ class RTr:
             return binds, "(" + op.join(parts) + ")"
         if isinstance(e, ast.UnaryOp) and isinstance(e.op, ast.Not):
             b, c = self.cond(e.operand)
+            if c in ("True", "False"): return b, ("False" if c == "True" else "True")
             return b, "(¬ %s)" % c
         if isinstance(e, ast.Compare):
             binds, parts = [], []
@@ -487,7 +624,10 @@ class RTr:
                     binds += bl + br
                     parts.append(c if isinstance(op, ast.In) else "(¬ %s)" % c)
                 elif isinstance(op, (ast.Is, ast.IsNot)):
-                    raise Untranslatable("is / is not")
+                    if not (isinstance(right, ast.Constant) and right.value is None): raise Untranslatable("is / is not")
+                    nl = left.id if isinstance(left, ast.Name) else self.slot(left)
+                    if not nl or self.types.get(nl) not in OPT_OF: raise Untranslatable("is None on a value that is not optional")
+                    parts.append("(%s %s none)" % (nm(nl), "=" if isinstance(op, ast.Is) else "≠"))
                 else:
                     sym = {ast.Lt: "<", ast.LtE: "≤", ast.Gt: ">", ast.GtE: "≥", ast.Eq: "=", ast.NotEq: "≠"}.get(type(op))
                     if sym is None: raise Untranslatable("comparison %s" % type(op).__name__)
@@ -504,6 +644,9 @@ class RTr:
         b, t, ty = self.expr(e)
         if ty == "Bool": return b, "(%s = true)" % t
         if ty == "StaticFalse": return b, "False"
+        if ty == "StaticTrue": return b, "True"
+        if ty in ("DT",): return b, "True"
+        if ty == "OptDT": return b, "(%s.isSome = true)" % t
         if ty == "Int": return b, "(%s ≠ 0)" % t
         if ty in ("OptIntList", "OptPairList"): return b, "(RRule.truthy %s = true)" % t
         if ty in ELEM: return b, "(%s.isEmpty = false)" % t
@@ -543,6 +686,11 @@ class RTr:
         n = self.var(target)
         if n.startswith("self_") and n[5:] not in self.written: self.written.append(n[5:])
         want = self.spec.locals.get(n) or (self.types.get(n) if n.startswith("self_") else None)
+        if want in OPT_OF:
+            if ty == "None": self.nonnull.discard(n)
+            else: self.nonnull.add(n)
+        elif n in self.nonnull and not want:
+            self.nonnull.discard(n)
         text = self.coerce(text, ty, want) if want else text
         if not want and ty in ("None", "EmptyList"): raise Untranslatable("type of %s unknown (declare it in the spec)" % n)
         self.set_type(n, want or ty)
@@ -603,6 +751,20 @@ class RTr:
             n = self.var(c.func.value)
             ty = self.types.get(n)
             m = c.func.attr
+            if ty in OPT_OF and n in self.nonnull and m in ("add", "append", "sort"):
+                # a slot declared optional that holds a value here: operate on the value
+                inner = {"OptIntList": "IntSet", "OptPairList": "PairSet", "OptTimeList": "TimeList"}.get(ty)
+                cur = "(RrPy.the %s)" % nm(n)
+                if m == "add" and inner in ("IntSet", "PairSet") and len(c.args) == 1:
+                    b, v, vty = self.expr(c.args[0])
+                    v = self.coerce(v, vty, ELEM[inner])
+                    return self.emit_binds(b) + ["let %s := some (RrPy.setAdd %s %s)" % (nm(n), cur, v)] + self.block(rest, k, lo)
+                if m == "append" and inner == "TimeList" and len(c.args) == 1:
+                    b, v, vty = self.expr(c.args[0], "Time")
+                    return self.emit_binds(b) + ["let %s := some (%s ++ [%s])" % (nm(n), cur, v)] + self.block(rest, k, lo)
+                if m == "sort" and inner == "TimeList" and not c.args:
+                    return ["let %s := some (RRule.sortBy RRule.ltHMS %s)" % (nm(n), cur)] + self.block(rest, k, lo)
+                raise Untranslatable("method call .%s on %s" % (m, ty))
             if m == "add" and ty == "IntSet" and len(c.args) == 1:
                 b, v = self.int_expr(c.args[0])
                 return self.emit_binds(b) + ["let %s := RrPy.setAdd %s %s" % (nm(n), nm(n), v)] + self.block(rest, k, lo)
@@ -651,24 +813,57 @@ class RTr:
             v = "(RrPy.Flow.ret %s)" % v
         return self.emit_binds(b) + ["pure %s" % v]
 
-    def branch(self, stmts, k, lo):
+    def branch(self, stmts, k, lo, which=None, narrow=None):
         saved = dict(self.types)
+        saved_nn = set(self.nonnull)
+        if narrow and narrow[1] == which and narrow[0]: self.nonnull.add(narrow[0])
         self.nest += 1
         lines = self.block(stmts, k, lo)
         self.nest -= 1
         self.types = saved
+        self._nn_end = set(self.nonnull)
+        self.nonnull = saved_nn
         return lines or ["pure ()"]
+
+    def prune(self, stmts):
+        """replace nested `if`s whose test is statically decided by the branch taken (so that a `raise` in dead code does not
+        make the enclosing `if` look like it escapes)"""
+        out = []
+        for st in stmts:
+            if isinstance(st, ast.If):
+                try:
+                    saved_tmp = self.tmp
+                    b, c = self.cond(st.test)
+                    self.tmp = saved_tmp
+                except (Untranslatable, KeyError):      # not decidable here (e.g. a slot that is assigned later in the branch)
+                    c = None
+                if c == "False": out += self.prune(st.orelse); continue
+                if c == "True": out += self.prune(st.body); continue
+            out.append(st)
+        return out
 
     def do_if(self, s, rest, k, lo):
         binds, c = self.cond(s.test)
         pre = self.emit_binds(binds)
         if c == "False":                       # statically false test: the branch is dropped
             return self.block(list(s.orelse) + rest, k, lo)
+        if c == "True":
+            return self.block(list(s.body) + rest, k, lo)
+        # `x is None` / `x is not None`: the other branch knows x is a value
+        self._narrow = None
+        t0 = s.test
+        if isinstance(t0, ast.Compare) and len(t0.ops) == 1 and isinstance(t0.ops[0], (ast.Is, ast.IsNot)) \
+                and isinstance(t0.comparators[0], ast.Constant) and t0.comparators[0].value is None:
+            nl = t0.left.id if isinstance(t0.left, ast.Name) else self.slot(t0.left)
+            self._narrow = (nl, "orelse" if isinstance(t0.ops[0], ast.Is) else "body")
+        if self.spec.kind == "sec":
+            s = ast.If(test=s.test, body=self.prune(s.body), orelse=self.prune(s.orelse))
         tb, te = self.terminates(s.body), self.terminates(s.orelse)
         sectioned = self.spec.split and self.nest <= 1 and not self.loop
         if tb or te or self.escapes(s.body) or self.escapes(s.orelse) or (not rest and not sectioned):
-            a = self.branch(list(s.body) + ([] if tb else rest), k, lo)
-            b = self.branch(list(s.orelse) + ([] if te else rest), k, lo)
+            nr = self._narrow
+            a = self.branch(list(s.body) + ([] if tb else rest), k, lo, "body", nr)
+            b = self.branch(list(s.orelse) + ([] if te else rest), k, lo, "orelse", nr)
             return pre + ["if %s then" % c] + self.ind(a) + ["else"] + self.ind(b)
         live_after = self.live(rest, lo, self.loop["lc"] if self.loop else None, self.loop["lb"] if self.loop else None)
         vs = [v for v in self.assigned([s]) if v in live_after]
@@ -683,8 +878,11 @@ class RTr:
                 dummies.append("let %s : %s := %s   -- unbound here in Python" % (nm(v), lean_ty(ty), DEFAULT[ty]))
         done = lambda: ["pure %s" % self.tup(vs)]
         saved_loop = self.loop
-        a = self.branch(list(s.body), done, set(vs) | live_after)
-        b = self.branch(list(s.orelse), done, set(vs) | live_after)
+        nr = self._narrow
+        a = self.branch(list(s.body), done, set(vs) | live_after, "body", nr)
+        nn_a = self._nn_end
+        b = self.branch(list(s.orelse), done, set(vs) | live_after, "orelse", nr)
+        self.nonnull = (self.nonnull - set(vs)) | (nn_a & self._nn_end & set(vs))
         # types assigned inside the branches
         for v in vs: self.set_type(v, self.types.get(v, "Int"))
         self.loop = saved_loop
@@ -834,6 +1032,89 @@ class RTr:
         return "\n".join(self.aux) + ("\n" if self.aux else "") + text
 
 
+def section_function(tr, fn):
+    """the top-level statement of (cleaned) `__init__` that first mentions the anchor, as a Lean function"""
+    sp = tr.spec
+    body = clean_init(fn.body)
+    def mentions(st):
+        for n in ast.walk(st):
+            if isinstance(n, ast.Name) and n.id == sp.anchor: return True
+            if isinstance(n, ast.Attribute) and is_self(n.value) and n.attr == sp.anchor: return True
+        return False
+    picked = [st for st in body if mentions(st)]
+    if not picked: raise Untranslatable("section %s of rrule.__init__ not found" % sp.anchor)
+    st = picked[0]
+    outs = [n for n, _ in sp.outs]
+    def fall_off():
+        return ["pure %s" % tr.tup(outs)]
+    lines = tr.block([st], fall_off, set(outs))
+    params = " ".join("(%s : %s)" % (nm(n), lean_ty(t)) for n, t in sp.params)
+    text = "def %s %s : Py.R %s := do\n" % (sp.leanname, params, lean_ty_p(sp.ret))
+    text += "\n".join(tr.ind(lines)) + "\n"
+    return "\n".join(tr.aux) + ("\n" if tr.aux else "") + text, hashlib.sha256(ast.dump(st).encode()).hexdigest()[:16]
+
+
+def whole_init(tr, fn):
+    """all statements of the cleaned `__init__` in sequence; returns the normalised rule"""
+    sp = tr.spec
+    argnames = [a.arg for a in fn.args.args if a.arg != "self"]
+    want = [n for n, _ in sp.params if n not in ("fwd", "tz")]
+    if argnames != want: raise Untranslatable("parameters of rrule.__init__ are %s" % argnames)
+    body = clean_init(fn.body)
+    fields = [("freq", "self__freq"), ("interval", "self__interval"), ("wkst", "self__wkst"), ("dtstart", "self__dtstart"),
+              ("tz", "self__tzinfo"), ("count", "self__count"), ("untilDT", "self__until"), ("bysetpos", "self__bysetpos"),
+              ("bymonth", "self__bymonth"), ("bymonthday", "self__bymonthday"), ("bynmonthday", "self__bynmonthday"),
+              ("byyearday", "self__byyearday"), ("byeaster", "self__byeaster"), ("byweekno", "self__byweekno"),
+              ("byweekday", "self__byweekday"), ("bynweekday", "self__bynweekday"), ("byhour", "self__byhour"),
+              ("byminute", "self__byminute"), ("bysecond", "self__bysecond"), ("timeset", "self__timeset")]
+    def fall_off():
+        for _, v in fields:
+            if v not in tr.types: raise Untranslatable("%s is not assigned by rrule.__init__" % v)
+        return ["pure { %s }" % ", ".join("%s := %s" % (f, v) for f, v in fields)]
+    lines = tr.block(body, fall_off, {v for _, v in fields})
+    params = " ".join("(%s : %s)" % (nm(n), lean_ty(t)) for n, t in sp.params)
+    text = "def %s %s : Py.R RRule.Rule := do\n" % (sp.leanname, params)
+    text += "\n".join(tr.ind(lines)) + "\n"
+    return "\n".join(tr.aux) + ("\n" if tr.aux else "") + text, hashlib.sha256(ast.dump(fn).encode()).hexdigest()[:16]
+
+
+BYP = lambda n: [(n, "OptIntList")]
+INIT_WHOLE = RFn("rrule.__init__[whole]", "init", "sec",
+    [("fwd", "Int"), ("tz", "Int"), ("freq", "Int"), ("dtstart", "DT"), ("interval", "Int"), ("wkst", "OptInt"), ("count", "OptInt"), ("until", "OptDT"),
+     ("bysetpos", "OptIntList"), ("bymonth", "OptIntList"), ("bymonthday", "OptIntList"), ("byyearday", "OptIntList"), ("byeaster", "OptIntList"),
+     ("byweekno", "OptIntList"), ("byweekday", "OptPairList"), ("byhour", "OptIntList"), ("byminute", "OptIntList"), ("bysecond", "OptIntList"),
+     ("cache", "Bool")], "Rule",
+    {"self__bysetpos": "OptIntList", "self__bymonth": "OptIntList", "self__byyearday": "OptIntList", "self__byeaster": "OptIntList",
+     "self__byweekno": "OptIntList", "self__bymonthday": "IntList", "self__bynmonthday": "IntList", "self__byweekday": "OptIntList",
+     "self__bynweekday": "OptPairList", "self__byhour": "OptIntList", "self__byminute": "OptIntList", "self__bysecond": "OptIntList",
+     "self__timeset": "OptTimeList", "self__wkst": "Int", "bymonth": "OptIntList", "bymonthday": "OptIntList", "byweekday": "OptPairList"})
+INIT_SECS = [
+    RSec("rrule.__init__[bymonth]", "init_bymonth", "_bymonth", BYP("bymonth"), [("self__bymonth", "OptIntList")]),
+    RSec("rrule.__init__[byyearday]", "init_byyearday", "_byyearday", BYP("byyearday"), [("self__byyearday", "OptIntList")]),
+    RSec("rrule.__init__[byweekno]", "init_byweekno", "_byweekno", BYP("byweekno"), [("self__byweekno", "OptIntList")]),
+    RSec("rrule.__init__[byeaster]", "init_byeaster", "_byeaster", BYP("byeaster"), [("self__byeaster", "OptIntList")]),
+    RSec("rrule.__init__[bymonthday]", "init_bymonthday", "_bymonthday", BYP("bymonthday"),
+         [("self__bymonthday", "IntList"), ("self__bynmonthday", "IntList")]),
+    RSec("rrule.__init__[bysetpos]", "init_bysetpos", "_bysetpos", BYP("bysetpos"), [("self__bysetpos", "OptIntList")]),
+    RSec("rrule.__init__[interval]", "init_interval", "interval", [("interval", "Int")], []),
+    RSec("rrule.__init__[wkst]", "init_wkst", "wkst", [("fwd", "Int"), ("wkst", "OptInt")], [("self__wkst", "Int")]),
+    RSec("rrule.__init__[defaults]", "init_defaults", "byweekno",
+         [("freq", "Int"), ("dtstart", "DT"), ("bymonth", "OptIntList"), ("bymonthday", "OptIntList"), ("byyearday", "OptIntList"),
+          ("byeaster", "OptIntList"), ("byweekno", "OptIntList"), ("byweekday", "OptPairList")],
+         [("bymonth", "OptIntList"), ("bymonthday", "OptIntList"), ("byweekday", "OptPairList")]),
+    RSec("rrule.__init__[byweekday]", "init_byweekday", "_byweekday", [("freq", "Int"), ("byweekday", "OptPairList")],
+         [("self__byweekday", "OptIntList"), ("self__bynweekday", "OptPairList")]),
+    RSec("rrule.__init__[timeset]", "init_timeset", "_timeset",
+         [("self__freq", "Int"), ("self__byhour", "OptIntList"), ("self__byminute", "OptIntList"), ("self__bysecond", "OptIntList")],
+         [("self__timeset", "OptTimeList")]),
+    RSec("rrule.__init__[byhour]", "init_byhour", "_byhour",
+         [("freq", "Int"), ("dtstart", "DT"), ("self__interval", "Int"), ("byhour", "OptIntList")], [("self__byhour", "OptIntList")]),
+    RSec("rrule.__init__[byminute]", "init_byminute", "_byminute",
+         [("freq", "Int"), ("dtstart", "DT"), ("self__interval", "Int"), ("byminute", "OptIntList")], [("self__byminute", "OptIntList")]),
+    RSec("rrule.__init__[bysecond]", "init_bysecond", "_bysecond",
+         [("freq", "Int"), ("dtstart", "DT"), ("self__interval", "Int"), ("bysecond", "OptIntList")], [("self__bysecond", "OptIntList")]),
+]
+
 RR_SPECS = [
     RFn("rrule.__construct_byset", "constructByset", "rule", [("start", "Int"), ("byxxx", "IntList"), ("base", "Int")], "IntSet",
         {"cset": "IntSet"}),
@@ -854,11 +1135,26 @@ RR_SPECS = [
 ]
 
 
+RR_SPECS = RR_SPECS + INIT_SECS + [INIT_WHOLE]
+
+
 def translate_module(src_root, file, specs):
     tree = ast.parse(open(os.path.join(src_root, file)).read())
     consts = module_consts(tree)
     parts, fps = [], {}
     for sp in specs:
+        if sp is INIT_WHOLE:
+            fn = find_function(tree, "rrule.__init__")
+            text, fp = whole_init(RTr(tree, sp, consts), fn)
+            parts.append("/-- translated from `%s:rrule.__init__`: every statement in sequence (without the `_original_rule` bookkeeping, `warn`, the\n    UNTIL / DTSTART awareness check; `Args` conventions: datetimes, 1-tuples, weekday pairs) -/\n%s" % (file, text))
+            fps[sp.qualname] = fp
+            continue
+        if isinstance(sp, RSec):
+            fn = find_function(tree, sp.qualname.split("[")[0])
+            text, fp = section_function(RTr(tree, sp, consts), fn)
+            parts.append("/-- translated from `%s:%s` (one top-level statement; `_original_rule` bookkeeping not included) -/\n%s" % (file, sp.qualname, text))
+            fps[sp.qualname] = fp
+            continue
         fn = find_function(tree, sp.qualname)
         parts.append("/-- translated from `%s:%s` -/\n%s" % (file, sp.qualname, RTr(tree, sp, consts).function(fn)))
         fps[sp.qualname] = hashlib.sha256(ast.dump(fn).encode()).hexdigest()[:16]
@@ -867,5 +1163,5 @@ def translate_module(src_root, file, specs):
 
 if __name__ == "__main__":
     import sys
-    text, fps = translate_module(os.path.join(sys.argv[1] if len(sys.argv) > 1 else "/repo", "src", "dateutil"), "rrule.py", RR_SPECS)
+    text, fps = translate_module(os.path.join(sys.argv[1] if len(sys.argv) > 1 else "/repo", "src", "dateutil"), "rrule.py", [INIT_WHOLE])
     print(text)
